@@ -103,6 +103,7 @@ SUITES = {
                      'EdifNamespace': 'spydrnet/plugins/namespace_manager/edif_namespace.py'}, 'obligations': 'posts'},
     'clone': {'module': 'specs.clone', 'spec_class': 'CloneSpec', 'functions': 'specs.clone', 'files': {}, 'obligations': 'posts'},
     'edifnames': {'module': 'specs.edifnames', 'spec_class': 'EdifNamesSpec', 'functions': 'specs.edifnames', 'files': {}, 'obligations': 'posts'},
+    'irns': {'module': 'specs.irns', 'spec_class': 'IRNSSpec', 'functions': 'specs.irns', 'files': {}, 'obligations': 'posts'},
     'href': {'module': 'specs.href', 'spec_class': 'HRefSpec', 'functions': 'specs.href', 'files': {}, 'obligations': 'posts'},
     'compare': {'module': 'specs.compare', 'spec_class': 'CompareSpec', 'functions': 'specs.compare',
                 'files': {'Comparer': 'spydrnet/compare/compare_netlists.py'}, 'obligations': 'posts'},
@@ -139,6 +140,7 @@ def run_function(repo, cls, name, kind, params, spec_module='specs.ir', opts=Non
         else:
             h0[k_] = v_
     spec.h0 = h0
+    spec._ctor_run = cls if name == '__init__' else None
     inv0 = spec.inv.clauses(h0, hyp=True)
     self_ = Const('self', ctx.Ref)
     is_ir_self = cls in ctx.C
@@ -174,6 +176,7 @@ def run_function(repo, cls, name, kind, params, spec_module='specs.ir', opts=Non
             if name == '__init__':
                 # a constructor runs on a freshly allocated object that nothing refers to yet
                 st.pc = [g for _, _, g in inv0] + [Not(h0['alloc'][self_]), ctx.cls(self_) == ctx.C[cls], self_ != ctx.null]
+                if hasattr(sm_posts, 'extra_pre'): st.pc += sm_posts.extra_pre(ctx, spec, h0)
                 st.heap['alloc'] = Store(h0['alloc'], self_, True)
                 st.fresh.append(self_)
             args = [R(self_) if is_ir_self else ('obj', cls)]
